@@ -316,7 +316,7 @@ def run_tlc(tla: str, cfg: Optional[str] = None, *, workers: int | str = int(os.
             depth: Optional[int] = None, coverage: bool = False, cont: bool = False,
             dump_dot: Optional[str] = None, deadlock: Optional[bool] = None, seed: Optional[int] = None,
             env: Optional[dict] = None, timeout: float = 1800, extra: Iterable[str] = (),
-            java_opts: Iterable[str] = (), parse_traces: bool = True, max_heap: str = '8g',
+            java_opts: Iterable[str] = (), parse_traces: bool = True, max_heap: str = os.environ.get('VERIF_TLC_HEAP', '4g'),
             dfid: Optional[int] = None) -> TLCResult:
     """Run TLC on `tla` (absolute path, or relative to /verif/specs)."""
     if not os.path.isabs(tla):
